@@ -361,8 +361,50 @@ class _IfAssign(ast.NodeTransformer):
         return a[0], v
 
 
+def _bool_const(st, value):
+    return isinstance(st, ast.Return) and isinstance(st.value, ast.Constant) and st.value.value is value
+
+
+def _fold_quantifier_loops(body):
+    """for x in IT: if not C: return False   (then) return True    ->  return all(C for x in IT)
+       for x in IT: if C: return True        (then) return False   ->  return any(C for x in IT)"""
+    out, i = [], 0
+    while i < len(body):
+        st = body[i]
+        nxt = body[i + 1] if i + 1 < len(body) else None
+        done = False
+        if isinstance(st, ast.For) and not st.orelse and len(st.body) == 1 and isinstance(st.body[0], ast.If) \
+                and not st.body[0].orelse and len(st.body[0].body) == 1 and nxt is not None:
+            cond, inner = st.body[0].test, st.body[0].body[0]
+            for early, after, fn_, negate in ((False, True, "all", True), (True, False, "any", False)):
+                if _bool_const(inner, early) and _bool_const(nxt, after):
+                    c = cond
+                    if negate:
+                        c = c.operand if isinstance(c, ast.UnaryOp) and isinstance(c.op, ast.Not) else ast.UnaryOp(op=ast.Not(), operand=c)
+                    gen = ast.GeneratorExp(elt=c, generators=[ast.comprehension(target=st.target, iter=st.iter, ifs=[], is_async=0)])
+                    new = ast.Return(value=ast.Call(func=ast.Name(id=fn_, ctx=ast.Load()), args=[gen], keywords=[]))
+                    for x in ast.walk(new):
+                        ast.copy_location(x, st)
+                    out.append(new)
+                    i += 2
+                    done = True
+                    break
+        if not done:
+            for field in ("body", "orelse", "finalbody"):
+                sub = getattr(st, field, None)
+                if isinstance(sub, list) and sub and isinstance(sub[0], ast.stmt) and not isinstance(st, FUNC_TYPES + (ast.ClassDef,)):
+                    setattr(st, field, _fold_quantifier_loops(sub))
+            if isinstance(st, ast.Try):
+                for h in st.handlers:
+                    h.body = _fold_quantifier_loops(h.body)
+            out.append(st)
+            i += 1
+    return out
+
+
 def canonicalize(fn, unstable=frozenset()):
     """Inline pure alias locals in place (fn is a FunctionDef).  Returns the alias map used."""
+    fn.body = _fold_quantifier_loops(fn.body)
     _IfAssign().visit(fn)
     ast.fix_missing_locations(fn)
     defs = alias_defs(fn, unstable)
